@@ -80,11 +80,18 @@ def check_invariant(c, raw, label):
                 assert bt and same_trials([ct], bt) is not False, f"{label}: cached finished trial {n} differs from backend"
 
 
-def compare_reads(c, raw, sids, label, concrete_values, stale_sink, deleted_by=None):
+_nreads = [0]
+
+
+def compare_reads(c, raw, sids, label, concrete_values, stale_sink, deleted_by=None, choose_first=True):
     deleted_by = deleted_by or {}
     me = label.split('(')[0]
+    # which state filter the client uses FIRST matters: an unfiltered read repairs a cache that a filtered read would have exposed
+    _nreads[0] += 1
+    first = sx.choose(len(FILTERS), f"read{_nreads[0]}.first_filter") if choose_first else 0
+    order = [FILTERS[first]] + [f for k, f in enumerate(FILTERS) if k != first]
     for sid in sids:
-        for flt in FILTERS:
+        for flt in order:
             try:
                 want = raw.get_all_trials(sid, deepcopy=False, states=flt)
                 werr = None
@@ -146,8 +153,9 @@ def compare_reads(c, raw, sids, label, concrete_values, stale_sink, deleted_by=N
             stale_sink.append(f"{label}: study-level cache stale: " + "; ".join(stale))
 
 
-def make_body(k_steps, client_kinds, with_delete, seed_trials=0, full_alphabet=False):
+def make_body(k_steps, client_kinds, with_delete, seed_trials=0, full_alphabet=False, seed_states=None, choice_reads="all"):
     def body():
+        _nreads[0] = 0
         raw = FakeRDB()
         clients = []
         for kind in client_kinds:
@@ -170,7 +178,8 @@ def make_body(k_steps, client_kinds, with_delete, seed_trials=0, full_alphabet=F
 
         for j in range(seed_trials):
             c = sx.choose(len(clients), f"seed{j}.client")
-            st = [TrialState.RUNNING, TrialState.COMPLETE, TrialState.WAITING][sx.choose(3, f"seed{j}.state")]
+            st = (seed_states[j] if seed_states else
+                  [TrialState.RUNNING, TrialState.COMPLETE, TrialState.WAITING][sx.choose(3, f"seed{j}.state")])
             tmpl = None if st == TrialState.RUNNING else create_trial(state=st, values=[val()] if st == TrialState.COMPLETE else None)
             clients[c].create_new_trial(sids[0], tmpl)
             hist.append((names[c], "seed-create", st.name))
@@ -232,7 +241,7 @@ def make_body(k_steps, client_kinds, with_delete, seed_trials=0, full_alphabet=F
                 sx.reach("read")
                 hist.append((cname, "read"))
                 sx.note("history", list(hist))
-                compare_reads(c, raw, sids[:1], cname, concrete_values, stale_all, deleted_by)
+                compare_reads(c, raw, sids[:1], cname, concrete_values, stale_all, deleted_by, choose_first=(choice_reads == "all"))
                 check_invariant(c, raw, cname)
         # final: every cached client reads everything
         for c, cname in zip(clients, names):
@@ -350,20 +359,27 @@ def obligations(tier):
                               bounds=dict(clients="1 cached + 1 proxied", studies=2, steps=3, delete_study=True),
                               shard_depth=3, budget_s=500, classify=classify, require_reach=["read"],
                               describe="same with delete_study in the alphabet"))
-    else:
-        obs.append(Obligation("cached-2clients-k4", make_body(4, ["cached", "cached"], False), setup, CODE,
+    for kinds, nm in ((["grpc", "cached"], "grpc+cached"), (["cached", "cached"], "cached-2clients")):
+        fixed = [TrialState.RUNNING, TrialState.COMPLETE] if tier == "quick" else None
+        obs.append(Obligation(f"{nm}-seed2-k2", make_body(2, kinds, False, seed_trials=2, seed_states=fixed), setup, CODE,
+                              bounds=dict(clients=nm, studies=2, seed_trials="an older RUNNING and a younger COMPLETE trial, created by any client" if fixed else
+                                          "2 (any client, RUNNING/COMPLETE/WAITING)", steps=2, first_filter="any"),
+                              shard_depth=4, budget_s=600, classify=classify, require_reach=["read"],
+                              describe="two pre-existing trials (e.g. an older unfinished and a younger finished one), then 2 symbolic steps; the final reads start with any state filter"))
+    if tier != "quick":
+        obs.append(Obligation("cached-2clients-k4", make_body(4, ["cached", "cached"], False, choice_reads="final"), setup, CODE,
                               bounds=dict(clients="2 cached", studies=2, steps=4),
                               shard_depth=4, budget_s=2400, classify=classify, require_reach=["read"],
                               describe="two _CachedStorage clients, 4 symbolic steps"))
-        obs.append(Obligation("cached-seed-k3-full", make_body(3, ["cached", "cached"], False, seed_trials=1, full_alphabet=True), setup, CODE,
+        obs.append(Obligation("cached-seed-k3-full", make_body(3, ["cached", "cached"], False, seed_trials=1, full_alphabet=True, choice_reads="final"), setup, CODE,
                               bounds=dict(clients="2 cached", studies=2, seed_trials=1, steps=3, alphabet="full"),
                               shard_depth=4, budget_s=2400, classify=classify, require_reach=["read"],
                               describe="seeded trial (symbolic creator/state) + 3 steps over the full setter alphabet"))
-        obs.append(Obligation("grpc+cached-k4", make_body(4, ["grpc", "cached"], False), setup, CODE,
+        obs.append(Obligation("grpc+cached-k4", make_body(4, ["grpc", "cached"], False, choice_reads="final"), setup, CODE,
                               bounds=dict(clients="1 proxied + 1 cached", studies=2, steps=4),
                               shard_depth=4, budget_s=2400, classify=classify, require_reach=["read"],
                               describe="proxy client cache + cached client, 4 symbolic steps"))
-        obs.append(Obligation("delete-k4", make_body(4, ["cached", "grpc"], True), setup, CODE,
+        obs.append(Obligation("delete-k4", make_body(4, ["cached", "grpc"], True, choice_reads="final"), setup, CODE,
                               bounds=dict(clients="1 cached + 1 proxied", studies=2, steps=4, delete_study=True),
                               shard_depth=4, budget_s=2400, classify=classify, require_reach=["read"],
                               describe="delete_study in the alphabet, 4 steps"))
